@@ -1393,3 +1393,23 @@ class LoopVariable:
 
     def visitExpression(self, node):
         self._loop_reference_detected(node)
+
+    # the attribute expressions of the tags that may stand inside a loop:
+    # an include, a call, a filter= or a signature may name ``loop`` as well
+    def visitTextTag(self, node):
+        self._loop_reference_detected(node)
+
+    def visitIncludeTag(self, node):
+        self._loop_reference_detected(node)
+
+    def visitCallTag(self, node):
+        self._loop_reference_detected(node)
+
+    def visitCallNamespaceTag(self, node):
+        self._loop_reference_detected(node)
+
+    def visitDefTag(self, node):
+        self._loop_reference_detected(node)
+
+    def visitBlockTag(self, node):
+        self._loop_reference_detected(node)
